@@ -171,6 +171,10 @@ def judge_cell(rec, ident, role, feat, cfg):
     if kid:
         rec.known_finding(kid)
         return
+    why = observe.interpreter_defect_312(o, src)
+    if why:
+        rec.inconc(why)
+        return
     rec.violation(o.status, case, o.detail)
 
 
